@@ -9,7 +9,7 @@ CLAIM = dict(
    technique="Coq proof (induction on fuel over a nested inductive of types) + differential correspondence impl vs extracted model", design="6 C12")
 
 THEOREMS = ["C12_total", "C12_leaf_opposite", "C12_leaf_merge", "C12_leaf_tail", "C12_refl", "C12_mirror_partial", "C12_fuel_irrelevant", "C12_classes", "C12_classes_less",
-            "C12_classes_mirror", "C12_classes_trans", "C12_generic_origin", "C12_generic_args",
+            "C12_classes_mirror", "C12_classes_trans", "C12_less_is_proper_subclass", "C12_not_less_when_not_subclass", "C12_generic_origin", "C12_generic_args",
             "C12_union_member", "C12_inter_member", "C12_dep_bound",
             "C12_mirror_refuted_union", "C12_mirror_refuted_inter", "C12_leaf_union_hook", "C12_leaf_inter_hook", "C12_leaf_dep_hook", "C12_leaf_generic_vs_generic", "C12_leaf_generic_vs_class"]
 ASSUMPTIONS = ["the generated class hierarchies satisfy the hypotheses of the theorems (issubclass reflexive, transitive, antisymmetric): checked per world, others are compared against the model only",
